@@ -443,6 +443,7 @@ fn edit_kind(e: &Edit) -> &'static str {
         Edit::Break(_) => "break",
         Edit::Resend => "resend",
         Edit::Retarget(_) => "retarget-imports",
+        Edit::Blank(_) => "blank",
     }
 }
 
